@@ -201,10 +201,11 @@ CLAIMED = {
         'text': 'PARTIAL.  Deductive proof (Verus) on the verbatim body of token_tree_to_goal (unit tokentree, together with the grouping functions that build its input): the goal built for a conjunction or a disjunction has the kind of the branch token '
                 'and exactly one operand per child, and the children of such a branch are operands only - so no goal of a rule body can be dropped or merged on the way from the token tree to the goal. '
                 'The round trip of the statement itself (printing the parsed value gives the canonical text; parsing the printed text gives an equal value) is a string-level inverse of two long functions and is checked BOUNDED only: '
-                '43 rules and facts covering every construct the statement lists (c19_roundtrip on the real parser and the real Display).',
+                '43 rules and facts covering every construct the statement lists (c19_roundtrip) and about 2400 generated rules per seed whose source and canonical text are written from the same tree (c19_random), on the real parser and the real Display. '
+                'The generated rules found a genuine defect, repaired (fix a60d3f3: not(add($A, 1) = 2) was printed but could not be read back).',
         'note': 'Only the goal-structure fragment is proved; terms, numbers, lists, built-ins and infix operators are covered by the bounded texts only. Parenthesised groups are outside the statement\'s list of documented syntax (Display writes no parentheses). '
                 'Trusted: T1-T5 as for C18 (same unit).',
-        'technique': 'contract-based deductive verification (Verus) of extracted real code (goal-structure fragment) + bounded round-trip enumeration on the real parser / Display',
+        'technique': 'contract-based deductive verification (Verus) of extracted real code (goal-structure fragment) + bounded round-trip enumeration (fixed and generated rules) on the real parser / Display',
         'design_ref': 'DESIGN.md 8.25',
     },
     'C20': {
@@ -214,7 +215,7 @@ CLAIMED = {
                 'for every text that the context accepts (a list can still be REJECTED for a text that is fine on its own: quotation marks that do not enclose the whole text - a known finding); and for an ARGUMENT made of simple characters (no sign, white space, bracket, quotation mark, comma, backslash) the scan of parse_arguments is proved to keep the text and to classify it as parse_term does, so such an argument is the meaning of its text on its own. For the argument contexts (complex term, built-in, query) the property does NOT hold: parse_arguments classifies the characters of an argument itself, drops backslashes and never looks for an infix. '
                 'The two obligations which say that this comes to the meaning of the piece on its own (#argument_not_infix, #argument_as_alone at both calls of make_term) fail on the unchanged tree and are refuted by inputs replayed on the real parsers; '
                 'they are recorded in known_findings.txt (a repair means one classification for all contexts and changes the accepted language in four ways; DESIGN 8.33). '
-                'A bounded exploration (c20_contexts: 207 term texts in 22 contexts, thirteen of them with a sibling term before or after the text, against parse_term) passes over a deviation only if it is one of the recorded ones by context, shape of the text and both values, and reports every other one.',
+                'A bounded exploration (c20_contexts: 207 fixed term texts and about 160 generated terms per seed in 22 contexts, thirteen of them with a sibling term before or after the text, against parse_term) passes over a deviation only if it is one of the recorded ones by context, shape of the text and both values, and reports every other one.',
         'note': 'Because the two argument obligations already fail for the recorded reasons, a further disagreement introduced into parse_arguments OUTSIDE the simple-character fragment is caught by the bounded exploration only, not by proof; nor is a list or a complex term that is REJECTED although its element texts are fine on their own (seed C20-2). One genuine defect found by the exploration was repaired (equal_escape, fix a6d7743). '
                 'ASSUMED (T10): parse_term, make_term, check_arithmetic_infix, get_left_and_right are functions of their arguments where they are callees. Trusted: T1-T5 as for C18, trim idempotent, clone of a char (T3).',
         'technique': 'contract-based deductive verification (Verus) of extracted real code (meaning of a text on its own; list-element and infix-operand contexts) + failing call-site obligations recorded as known findings with replayed inputs + bounded enumeration of texts x contexts on the real parsers',
